@@ -834,6 +834,56 @@ def gen_c16(rng, cid, nops, devs=(1, 2, 3), ifs=(10, 20, 30)):
         exp.append({dd: (knums(v[0]), {ii: knums(pp) for ii, pp in v[1].items()}) for dd, v in spec.items()})
     return Case(cid, lines, dict(exp=exp, probes=probes))
 
+def gen_c16_wide(rng, cid, n, level):
+    """more ids than any small hidden table has slots (pigeonhole): n interfaces under one device (level 'if') or n devices (level
+    'dev') are announced, a random half is removed again, then every remaining id is looked up and updated once more and a few of
+    the removed ones come back; snapshot with all lookups after every operation"""
+    fam = rng.below(4)
+    if fam == 0: ids = [rng.next() & 0xFFFFFFFF for _ in range(n)]
+    elif fam == 1: base = rng.below(1 << 16); ids = [base + k for k in range(n)]
+    elif fam == 2: sh = rng.range(4, 20); ids = [((k + 1) << sh) & 0xFFFFFFFF for k in range(n)]
+    else: ids = [(k * 0x9E3779B1 + 12345) & 0xFFFFFFFF for k in range(n)]
+    if level == 'dev':
+        ids = [x & 0xFFFF for x in ids]
+    ids = list(dict.fromkeys(ids))
+    lines, exp, spec, slot = [], [], {}, 0
+    dev0 = 7
+    def show(extra):
+        probes = extra + [99]
+        lines.append('SSHOW ' + ' '.join(map(str, probes)))
+        exp.append({dd: (knums(v[0]), {ii: knums(pp) for ii, pp in v[1].items()}) for dd, v in spec.items()})
+        return probes
+    allprobes = None
+    def upd(kind, d, i):
+        nonlocal slot
+        p = st_packet(rng, kind, d, i)
+        lines.append(pk_line(slot, p)); lines.append('SUPD %d' % slot); slot += 1
+        if d in spec:
+            if kind == 'cm': spec[d][0] = p
+            else: spec[d][1][i] = p
+        elif kind == 'cm':
+            spec[d] = [p, {}]
+    probes = ids[:]
+    if level == 'if':
+        upd('cm', dev0, 0); show(probes)
+        for i in ids:
+            upd('if', dev0, i); show(probes)
+        gone = [i for i in ids if rng.chance(1, 2)]
+        for i in gone:
+            lines.append('SRMIF %d %d' % (dev0, i)); spec[dev0][1].pop(i, None); show(probes)
+        for i in [x for x in ids if x not in gone] + gone[:5]:
+            upd('if', dev0, i); show(probes)
+    else:
+        for d in ids:
+            upd('cm', d, 0); show(probes)
+        gone = [d for d in ids if rng.chance(1, 2)]
+        for d in gone:
+            lines.append('SRMDEV %d' % d); spec.pop(d, None); show(probes)
+        for d in [x for x in ids if x not in gone] + gone[:5]:
+            upd('cm', d, 0); upd('if', d, 5); show(probes)
+    # every snapshot of this case uses the same probe list
+    return Case(cid, lines, dict(exp=exp, probes=probes + [99]))
+
 def judge_c16(case, lines):
     an = anomalies(lines)
     if an:
@@ -891,9 +941,13 @@ def run_c16(res, rng):
     if res.tier == 'thorough':
         for i in range(3000):
             cases.append(gen_c16(rng.fork('e%d' % i), 'e%d' % i, 6, devs=(1, 2), ifs=(10, 20)))
+    wide = [(70, 'if'), (70, 'dev'), (40, 'if'), (100, 'if')] if res.tier == 'quick' else \
+           [(70, 'if'), (70, 'dev'), (140, 'if'), (140, 'dev'), (270, 'if'), (270, 'dev'), (520, 'if'), (520, 'dev'), (1100, 'if')]
+    for j, (n_ids, level) in enumerate(wide):
+        cases.append(gen_c16_wide(rng.fork('w%d' % j), 'w%d' % j, n_ids, level))
     def proj(c, lines):
         return [l for l in lines if l.startswith('S')] + anomalies(lines)
     correspondence(res, cases, proj, judge_c16, 'status tracker = latest-message map')
-    res.cov['rule'] = 'sequences of 1-25 operations over 3 devices x 3 interfaces from {update(cm status | interface status | data packet), removeDeviceById, removeInterfaceById, clear}, each followed by a full snapshot (entries in vector order, all lookups for 7 probe ids); judge = Python dict-of-dicts latest-message map compared as a map, lookups against the snapshot order. non-trivial = distinct sequences with >= 3 operations'
+    res.cov['rule'] = 'sequences of 1-25 operations over 3 devices x 3 interfaces from {update(cm status | interface status | data packet), removeDeviceById, removeInterfaceById, clear}, each followed by a full snapshot (entries in vector order, all lookups for 7 probe ids); plus wide-id cases: 40-100 (thorough: up to 1100) interface ids under one device / device ids (random, sequential, shifted, multiplicative families - more ids than a small hidden table has slots), all announced, half removed, every remaining id updated and looked up again; judge = Python dict-of-dicts latest-message map compared as a map, lookups against the snapshot order. non-trivial = distinct sequences with >= 3 operations'
     res.cov['distinct_nontrivial'] = len(set(tuple(c.lines) for c in cases if len(c.meta.get('exp', [])) >= 3))
     res.cov['samples'] = [sample_case(c, 8) for c in cases[:2]]
